@@ -19,7 +19,7 @@ func init() {
 		"the real generator must return an error and no output; non-trivial = distinct (fault class, layout, definition kind)", func(c *Ctx) { runBad(c, "C05") })
 	register("C18", "the same G_bad mutants with the fault's file and line known by construction; the diagnostic must start with "+
 		"`<path relative to the config>:<line>: `; .graphql layouts and Go raw-string layouts (marker on the literal's first or second line); "+
-		"non-trivial = distinct (fault class, layout)", func(c *Ctx) { runBad(c, "C18"); c18Errorf(c) })
+		"non-trivial = distinct (fault class, layout)", func(c *Ctx) { runBad(c, "C18"); c18Errorf(c); c18RelativeConfig(c) })
 }
 
 type badCase struct {
